@@ -9,8 +9,6 @@ package main
 import (
 	"encoding/json"
 	"fmt"
-	"os"
-	"runtime/pprof"
 	"sort"
 	"strings"
 	"sync"
@@ -430,11 +428,6 @@ func ontoPass(sc *scenario, quick bool, rich []target, stop func() bool) (int64,
 
 func main() {
 	run := ev.Start("C23", "model_checking")
-	if pf := os.Getenv("VERIF_PROF"); pf != "" {
-		fh, _ := os.Create(pf)
-		pprof.StartCPUProfile(fh)
-		defer pprof.StopCPUProfile()
-	}
 	quick := run.Quick()
 	roles := map[string]string{"n1": "writer", "n2": "writer", "n3": "reader"} // n4 is never registered
 	nodeAlpha := fsmx.NodeCmds([]string{"n1", "n2", "n3", "n4"}, roles)
@@ -570,7 +563,7 @@ func main() {
 		for _, x := range minT {
 			tn = append(tn, x.Name)
 		}
-		sig := class + "|snapshot-of=" + seedNote + strings.Join(fsmx.Names(sc.alpha, minH), ";") + "|onto=" + strings.Join(tn, ";")
+		sig := class + "|snapshot-of=" + seedNote + strings.Join(fsmx.Names(sc.alpha, minH), ";") + "|onto=" + ontoName(tn)
 		rep := map[string]any{"scenario": sc.name, "snapshot_of": fsmx.Names(sc.alpha, minH), "installed_onto_fsm_that_applied": tn,
 			"found_at": map[string]any{"snapshot_of": fsmx.Names(sc.alpha, c.hist), "installed_onto": c.tgt.names}}
 		if c.then >= 0 {
@@ -592,8 +585,14 @@ func main() {
 	run.Coverage["invariant_evaluations"] = evals
 	run.Assume("AddNode payloads have exactly the fields the join paths set (no WriterState); UpdateNode is a read-modify-write of the current record")
 	run.Assume("node ids n1,n2 (writers), n3 (reader), n4 (never registered); RBAC ids as in C22; depth bound per scenario as reported")
-	pprof.StopCPUProfile()
 	run.Finish()
+}
+
+func ontoName(names []string) string {
+	if len(names) == 0 {
+		return "<fresh FSM>"
+	}
+	return strings.Join(names, ";")
 }
 
 func pick(q bool, a, b int) int {
